@@ -217,7 +217,8 @@ func (bv *SemVerRange) ToString(b io.Writer, s px.FormatContext, g px.RDetect) {
 func (bv *SemVerRange) ToKey(b *bytes.Buffer) {
 	b.WriteByte(1)
 	b.WriteByte(HkVersionRange)
-	appendKeyBytes(b, bv.rng.String())
+	// not String(), which is the text that the range was parsed from: equal ranges can be written differently
+	appendKeyBytes(b, bv.rng.NormalizedString())
 }
 
 func (bv *SemVerRange) PType() px.Type {
